@@ -2,11 +2,11 @@
   C06 — acknowledgements.  Executable transcription of
 
     Checkable::GetAcknowledgement / IsAcknowledged / AcknowledgeProblem / ClearAcknowledgement /
-      GetProblem / GetHandled                                  (lib/icinga/checkable.cpp:139-216)
-    the acknowledgement part of Checkable::ProcessCheckResult   (lib/icinga/checkable-check.cpp:258-282,
-      306-330, 497-511)
+      GetProblem / GetHandled                                  (lib/icinga/checkable.cpp:139-217)
+    the acknowledgement part of Checkable::ProcessCheckResult   (lib/icinga/checkable-check.cpp:264-288,
+      314-336, 503-517)
     Checkable::RemoveAckComments                                (lib/icinga/checkable-comment.cpp:22-44)
-    ApiActions::AcknowledgeProblem / RemoveAcknowledgement      (lib/icinga/apiactions.cpp:210-296)
+    ApiActions::AcknowledgeProblem / RemoveAcknowledgement      (lib/icinga/apiactions.cpp:210-294)
     ExternalCommandProcessor::Acknowledge{Svc,Host}Problem[Expire], Remove{Svc,Host}Acknowledgement
                                                                 (lib/icinga/externalcommandprocessor.cpp:597-741)
     ClusterEvents::AcknowledgementSetAPIHandler / AcknowledgementClearedAPIHandler
@@ -142,7 +142,7 @@ def preRefuse (c : Cfg) (s : MSt) (via : Via) (expiry now : Int) : Bool :=
   | .cluster => false
 
 /-- The value that ends up in `acknowledgement_expiry`.
-    api: apiactions.cpp:267-268 passes `(…, Utility::GetTime(), timestamp)`;
+    api: apiactions.cpp:266-267 passes `(…, Utility::GetTime(), timestamp)`;
     ext: externalcommandprocessor.cpp:620, 694 pass no expiry (default 0);
     extExpire: :650, :724 pass `(…, Utility::GetTime(), timestamp)` (since the repair of F-C06a, commit 6eaa5f1;
       before it `timestamp` landed in `changeTime` and the expiry stayed 0);
@@ -154,7 +154,7 @@ def storedExpiry (via : Via) (expiry : Int) : Int :=
   | .extExpire => expiry
   | .cluster => expiry
 
-/-- The `expire_time` of the comment that goes with the acknowledgement: apiactions.cpp:265-266 and
+/-- The `expire_time` of the comment that goes with the acknowledgement: apiactions.cpp:264-265 and
     externalcommandprocessor.cpp:649, 723 pass the expiry, :619, :693 pass 0. -/
 def commentExpire (via : Via) (expiry : Int) : Int :=
   match via with
@@ -183,7 +183,7 @@ def ackStep (c : Cfg) (s : MSt) (via : Via) (sticky notify persistent : Bool) (e
                               else g.1.comments },
        { acc := true, nSet := 1, nClr := g.2, nAckN := if notify then 1 else 0 })
 
-/-- Remove-acknowledgement: `ClearAcknowledgement`, then — API action (apiactions.cpp:293-294) and external
+/-- Remove-acknowledgement: `ClearAcknowledgement`, then — API action (apiactions.cpp:290-291) and external
     command (externalcommandprocessor.cpp:663-668, 737-741) — `RemoveAckComments()` with no time limit, which
     spares persistent comments; the cluster handler (clusterevents.cpp:908) only clears. -/
 def removeStep (s : MSt) (via : RVia) : MSt × Out :=
@@ -191,14 +191,14 @@ def removeStep (s : MSt) (via : RVia) : MSt × Out :=
   ({ cl.1 with comments := if via != .cluster then cl.1.comments.filter (·.persistent) else cl.1.comments },
    { acc := true, nClr := cl.2 })
 
-/-- checkable-check.cpp:273-274: a normal acknowledgement goes with any state change, a sticky one only when the
+/-- checkable-check.cpp:279-280: a normal acknowledgement goes with any state change, a sticky one only when the
     new state is OK/Up. -/
 def clearsOnChange (k : Kind) (a : Ack) (new : SState) : Bool :=
   a == .normal || (a == .sticky && isOK k new)
 
-/-- checkable-check.cpp:269-282: on a state change `GetAcknowledgement()` is consulted (lazy expiry) and the
+/-- checkable-check.cpp:275-288: on a state change `GetAcknowledgement()` is consulted (lazy expiry) and the
     acknowledgement cleared if the rule says so; afterwards `GetAcknowledgement()` is consulted once more,
-    unconditionally (line 280). -/
+    unconditionally (line 286). -/
 def resultAck (c : Cfg) (s : MSt) (new : SState) (now : Int) : MSt × Nat :=
   let sc := stateChange c.kind s.base.state new
   let g := if sc then getAck s now else (s, 0)
@@ -211,7 +211,7 @@ def resultAck (c : Cfg) (s : MSt) (new : SState) (now : Int) : MSt × Nat :=
 def keepsComment (createdBefore : Int) (cm : Cmt) : Bool :=
   cm.persistent || decide (cm.entry > createdBefore)
 
-/-- checkable-check.cpp:316-330 (`send_notification`), with C01's transcription of state type and hard change; the
+/-- checkable-check.cpp:320-331 (`send_notification`), with C01's transcription of state type and hard change; the
     volatile branch carries the SOFT NOT-OK → HARD OK exclusion too (since the repair of F-C02b, commit 6126182). -/
 def sendNotification (c : Cfg) (b : St) (new : SState) : Bool :=
   let ta := nextTypeAttempt c b new
@@ -225,14 +225,14 @@ def sendNotification (c : Cfg) (b : St) (new : SState) : Bool :=
 def resultStep (c : Cfg) (s : MSt) (new : SState) (execStart execEnd now : Int) : MSt × Out :=
   let r : Res := { state := new, execStart := execStart, now := now }
   let a := resultAck c s new now
-  -- :278-281, :329-330 `remove_acknowledgement_comments`
+  -- :284-289, :335-336 `remove_acknowledgement_comments`
   let comments := if a.1.ack == .none then a.1.comments.filter (keepsComment execEnd) else a.1.comments
-  -- :306-308 `suppress_notification` (reachable): in a downtime, or IsAcknowledged() after the clearing
+  -- :314-318 `suppress_notification` (reachable): in a downtime, or IsAcknowledged() after the clearing
   let acked := a.1.ack != .none || s.inDowntime
   let send := sendNotification c s.base new
-  -- :222-223
+  -- :227-228
   let recovery := isOK c.kind new && !isOK c.kind s.base.state
-  -- :497-511 (not flapping, not paused): request now, or stash while suppressed / while something is stashed
+  -- :503-517 (not flapping, not paused): request now, or stash while suppressed / while something is stashed
   let stash := send && (acked || s.suppPending)
   ({ a.1 with base := (stepCore c s.base r).1, comments := comments, suppPending := s.suppPending || stash },
    { acc := true, nClr := a.2, nProbN := if send && !stash && !recovery then 1 else 0 })
@@ -245,7 +245,7 @@ def survivesExpiry (now : Int) (cm : Cmt) : Bool :=
 /-- One operation as the entry point performs it. -/
 def opStep (c : Cfg) (s : MSt) : Op → MSt × Out
   | .result new es ee now =>
-    -- checkable-check.cpp:175-198: an outdated result is dropped before anything is touched
+    -- checkable-check.cpp:181-204: an outdated result is dropped before anything is touched
     if stale s.base { state := new, execStart := es, now := now } then (s, { acc := false })
     else resultStep c s new es ee now
   | .ack via sticky notify persistent expiry now => ackStep c s via sticky notify persistent expiry now
@@ -278,11 +278,11 @@ structure Obs where
   comments : List Cmt
   deriving Repr, DecidableEq
 
-/-- `Checkable::GetProblem` (checkable.cpp:205-210). -/
+/-- `Checkable::GetProblem` (checkable.cpp:206-211). -/
 def problemOf (c : Cfg) (s : MSt) : Bool :=
   s.base.lastExec.isSome && !isOK c.kind s.base.state
 
-/-- `Checkable::GetHandled` (checkable.cpp:212-215). -/
+/-- `Checkable::GetHandled` (checkable.cpp:213-216). -/
 def handledOf (c : Cfg) (s : MSt) : Bool :=
   problemOf c s && (s.inDowntime || s.ack != .none)
 
